@@ -96,8 +96,7 @@ def run(chk, w):
                     al = af.resolve(bi["ptr"])
                     if al is not None and al.op == "alloca":
                         amount_param = af.param_index_of_alloca(al)
-        if amount_param is None:
-            chk.abstain("C03-ADM", "cannot identify the amount parameter of %s" % adder)
+        if amount_param is None or not af.internal:
             continue
         for cf, ci in P.callers().get(adder, []):
             nadm += 1
@@ -131,6 +130,20 @@ def run(chk, w):
                 chk.ok("C03-ADM", 1, {"admission": ci.loc(), "guard": "counter + r <= limit, r = amount added"})
             else:
                 chk.violation("C03-ADM", cf.name, "admission", ci.loc(), "%s is called without a dominating test 'counter + r <= response limit' on the amount it adds" % adder)
+    # admission written out in place (no helper): the add itself sits behind the budget test
+    for name, stores in sorted(R.cmr_stores.items()):
+        f = P.functions[name]
+        for s_ in stores:
+            v_ = f.resolve(rules.strip_casts(f, s_["val"]))
+            if v_ is None or v_.op != "add":
+                continue
+            if name in R.adders and P.callers().get(name) and f.internal and _amount_param(f, R.cmr_stores[name]) is not None:
+                continue        # checked at its call sites above
+            nadm += 1
+            if rules.guarded_here_or_at_callers(P, f, s_, lambda fn_, gd_, tr_: _budget_guard(P, fn_, gd_, tr_, lim)):
+                chk.ok("C03-ADM", 1, {"admission": s_.loc(), "guard": "counter + r <= limit"})
+            else:
+                chk.violation("C03-ADM", name, "admission", s_.loc(), "the budget counter is increased without a dominating test 'counter + r <= response limit'")
     chk.floor("admission_sites", nadm, 2)
 
     # ---- SYM
@@ -229,6 +242,24 @@ def _branch_tag(f, s):
     return "other"
 
 
+def _in_retry(P, cf, R):
+    """cf is a static helper used only by the retry routine(s)"""
+    cs = P.callers().get(cf.name, [])
+    return cf.internal and bool(cs) and all(c.name in R.retry or _in_retry(P, c, R) for c, i in cs)
+
+
+def _amount_param(af, stores):
+    for s in stores:
+        v = af.resolve(rules.strip_casts(af, s["val"]))
+        if v is not None and v.op == "add":
+            bi = af.resolve(rules.strip_casts(af, v["b"]))
+            if bi is not None and bi.op == "load":
+                al = af.resolve(bi["ptr"])
+                if al is not None and al.op == "alloca":
+                    return af.param_index_of_alloca(al)
+    return None
+
+
 def _budget_guard(P, fn, gd, truth, lim):
     """the condition  counter + r <= limit  (on this edge)"""
     c = fn.resolve(gd["cond"])
@@ -267,16 +298,26 @@ def fifo_rules(chk, w, R, rid, fields=(ns.MSGQ, ns.RESPQ)):
                     continue
             chk.ok(rid, 1, {"call": i.callee, "queue": fld, "at": i.loc()})
     chk.floor("queue_api_calls", nq, 12 if ns.RESPQ in fields else 6)
-    # direct admission guarded by is_empty(message_queue)
-    for adder in sorted(R.adders):
-        for cf, ci in P.callers().get(adder, []):
-            if cf.name in R.retry:
+    # direct admission guarded by is_empty(message_queue): every increase of the budget outside the retry routine
+    for name, stores in sorted(R.cmr_stores.items()):
+        f = P.functions[name]
+        for s_ in stores:
+            v_ = f.resolve(rules.strip_casts(f, s_["val"]))
+            if v_ is None or v_.op != "add":
                 continue
-            ok = any(ns.empty_queue_guard(P, cf, br, taken) == ns.MSGQ for (br, taken) in rules.conditions_at(cf, ci))
-            if ok:
-                chk.ok(rid, 1, {"direct_admission": ci.loc(), "guard": "deferred queue empty"})
-            else:
-                chk.violation(rid, cf.name, "overtake", ci.loc(), "direct admission is not guarded by an empty deferred queue: a newer message can overtake held ones")
+            if name in R.retry or _in_retry(P, f, R):
+                continue
+            sites = [(f, s_)]
+            if f.internal and P.callers().get(name):
+                sites = [(cf, ci) for cf, ci in P.callers().get(name, [])]
+            for (cf, ci) in sites:
+                if cf.name in R.retry or _in_retry(P, cf, R):
+                    continue
+                ok = rules.guarded_here_or_at_callers(P, cf, ci, lambda fn_, gd_, tr_: ns.empty_queue_guard(P, fn_, gd_, tr_) == ns.MSGQ)
+                if ok:
+                    chk.ok(rid, 1, {"direct_admission": ci.loc(), "guard": "deferred queue empty"})
+                else:
+                    chk.violation(rid, cf.name, "overtake", ci.loc(), "direct admission is not guarded by an empty deferred queue: a newer message can overtake held ones")
 
     # the admission function (returns bool, reaches both the adder and a push onto the deferred queue): every point where its
     # result becomes 'true' (transmit now) lies behind the empty-deferred-queue test
@@ -290,7 +331,7 @@ def fifo_rules(chk, w, R, rid, fields=(ns.MSGQ, ns.RESPQ)):
             if g is not None and g.blocks and any(c2.callee in targets for c2 in g.calls()):
                 return True
         return False
-    adm_fns = [f for f in P.repo_functions() if f.ret == "i1" and any(c.callee in R.adders for c in f.calls()) and (f.name in pushers or near(f, pushers))]
+    adm_fns = [f for f in P.repo_functions() if f.ret == "i1" and (any(c.callee in R.adders for c in f.calls()) or f.name in R.adders) and (f.name in pushers or near(f, pushers))]
     chk.floor("admission_functions", len(adm_fns), 1)
     for f in adm_fns:
         for (s, why) in true_result_points(f):
